@@ -235,10 +235,22 @@ func pairSig(a, b object.Object) string {
 	if x == y {
 		return x
 	}
-	if x > y {
+	if typeRank(x) > typeRank(y) || (typeRank(x) == typeRank(y) && x > y) {
 		x, y = y, x
 	}
 	return x + "/" + y
+}
+
+func typeRank(t string) int {
+	switch t {
+	case "int":
+		return 0
+	case "float":
+		return 1
+	case "byte":
+		return 2
+	}
+	return 3
 }
 
 // orderedSig names an ordered (left/right) type pair.
